@@ -205,6 +205,16 @@ func (r *MultiplyReceiver) Round1() *MultiplyReceiveRound1Message {
 
 // Round2 runs the second round for the Receiver in the multiplication protocol.
 func (r *MultiplyReceiver) Round2(msg *MultiplySendRound1Message) (curve.Scalar, error) {
+	// The message comes from the other party: make sure that every part we index into below
+	// is present, and has one entry per element of the gadget vector.
+	if msg.Msg == nil || msg.UCheck == nil || len(msg.RCheck) != len(r.gadget) {
+		return nil, errors.New("multiply receive round 2: malformed message")
+	}
+	for i := 0; i < len(msg.RCheck); i++ {
+		if msg.RCheck[i] == nil {
+			return nil, errors.New("multiply receive round 2: malformed message")
+		}
+	}
 	result, err := r.receiver.Round2(msg.Msg)
 	if err != nil {
 		return nil, err
